@@ -47,13 +47,21 @@ static void ios_init(iosb* b) {
 }
 static void rec_init(srec* r) { r->magic = 0x5353; r->buf = malloc(SS_CAP); __CPROVER_assume(r->buf != 0); r->len = 0; r->rd = 0; r->hi = 0; }
 
+/* VP_NULL_OSTREAM (models/sstream_null.c): output text is discarded -- for harnesses where diagnostic texts are outside
+ * the claim; formatting state (width/flags) is still tracked, str() returns "" */
 static void put(void* s, char c) {
+#ifdef VP_NULL_OSTREAM
+  (void)s; (void)c; return;
+#endif
   srec* r = rec_of(s);
   if (r->len >= SS_CAP - 1) { VP_CHK("model-limit:stream-text-longer-than-SS_CAP", 0); __CPROVER_assume(0); }
   r->buf[r->len++] = c;
 }
 /* formatted insertion of a finished field: applies width/fill/adjust, resets width */
 static void put_field(void* s, const char* t, u64 n, u64 internal_at) {
+#ifdef VP_NULL_OSTREAM
+  ios_of(s)->width = 0; (void)t; (void)n; (void)internal_at; return;
+#endif
   iosb* b = ios_of(s);
   i64 w = b->width;
   b->width = 0;
@@ -100,6 +108,9 @@ void vpx__ZNSo5tellpEv(void* ret, void* s) { vfpos* r = ret; r->off = (ios_of(s)
 
 void* vpx__ZStlsISt11char_traitsIcEERSt13basic_ostreamIcT_ES5_PKc(void* s, void* c) {
   if (!c) { ios_of(s)->state |= ST_BAD; return s; }
+#ifdef VP_NULL_OSTREAM
+  ios_of(s)->width = 0; return s;
+#endif
   put_field(s, c, cstrlen(c), 0);
   return s;
 }
@@ -122,6 +133,9 @@ void* vpx__ZStlsIcSt11char_traitsIcEERSt13basic_ostreamIT_T0_ES6_St14_Resetiosfl
 void* vpx__ZStlsIcSt11char_traitsIcEERSt13basic_ostreamIT_T0_ES6_St12_Setiosflags(void* s, u32 m) { ios_of(s)->flags |= m; return s; }
 
 static void put_int(void* s, u64 mag, int neg, int is_signed) {
+#ifdef VP_NULL_OSTREAM
+  ios_of(s)->width = 0; (void)mag; (void)neg; (void)is_signed; return;
+#endif
   iosb* b = ios_of(s);
   u32 fl = b->flags;
   u32 bf = fl & (F_DEC | F_HEX | F_OCT);
@@ -173,6 +187,9 @@ void* vpx__ZNSo9_M_insertIbEERSoT_(void* s, u8 v) { return vpx__ZNSolsEb(s, v); 
 /* ---- floating point (see header comment for the supported subset) ---- */
 double rint(double); double floor(double); double fabs(double);
 static void put_double(void* s, double v) {
+#ifdef VP_NULL_OSTREAM
+  ios_of(s)->width = 0; (void)v; return;
+#endif
   iosb* b = ios_of(s);
   u32 fl = b->flags;
   char out[64]; u64 k = 0;
